@@ -39,8 +39,10 @@ def reference(n, succ, flagged, red):
     included), then one step of redirect marking in both directions."""
     succ = {i: set(v) for i, v in succ.items()}
     marked = set(flagged)
+    second = None
     if red is not None:
-        t, rflag, inc = red
+        t, rflag, inc = red[:3]
+        second = red[3] if len(red) > 3 else None
         succ["R"] = set()
         if inc is not None:
             succ[inc].add("R")
@@ -55,10 +57,15 @@ def reference(n, succ, flagged, red):
                 ch = True
     want = set(marked)
     if red is not None:
-        if t in marked:
-            want.add("R")
-        if "R" in marked:
-            want.add(t)
+        # the two redirect statements, in the order the analysis runs them: first every redirect whose target is marked,
+        # then every target of a marked redirect (8.3: the redirect layer is one pass, not a fixpoint)
+        redirects = {"R": t}
+        if second == "toR":
+            redirects["Rb"] = "R"
+        elif second == "toT":
+            redirects["Rb"] = t
+        s1 = want | {x for x, y in redirects.items() if y in want}
+        want = s1 | {y for x, y in redirects.items() if x in s1}
     return want
 
 
@@ -96,12 +103,17 @@ def run_case(ctx, n, edges, fl, red, names, history="single"):
     ctx.add_page("Module:m", 828, "return {}", model="Scribunto")
     if red is not None and not (late and red[0] in late):
         ctx.add_page("Template:R", 10, redirect_to="Template:" + names[red[0]])
+    if red is not None and len(red) > 3 and red[3]:
+        # a second redirect page: to the first one (a double redirect) or to the same target (a sibling)
+        ctx.add_page("Template:Rb", 10, redirect_to="Template:R" if red[3] == "toR" else "Template:" + names[red[0]])
     ctx.db_conn.commit()
 
     def clf(w, page):
         t = page.title.removeprefix("Template:")
         if t == "R":
             return set(), bool(red[1])
+        if t == "Rb":
+            return set(), False
         i = names.index(t)
         used = {names[j] for j in succ[i]}
         if red is not None and red[2] == i:
@@ -134,7 +146,8 @@ def run_case(ctx, n, edges, fl, red, names, history="single"):
     wt = {"Template:" + (names[x] if isinstance(x, int) else x) for x in want}
     # what a lookup reports right after the analysis (no cache clearing by the harness)
     looked = set()
-    for t in ["Template:" + names[i] for i in range(n)] + (["Template:R"] if red is not None else []):
+    for t in ["Template:" + names[i] for i in range(n)] + (["Template:R"] if red is not None else []) + \
+            (["Template:Rb"] if red is not None and len(red) > 3 and red[3] else []):
         pg = ctx.get_page(t, 10)
         if pg is not None and pg.need_pre_expand:
             looked.add(t)
@@ -194,9 +207,13 @@ def work(payload, skip, report):
                 reds = [None]
                 if with_red:
                     reds += [(t, rf, inc) for t in range(n) for rf in (0, 1) for inc in ([None] + list(range(n)))]
+                    # a second redirect page next to the first: R' -> R (double redirect) or R' -> t (sibling)
+                    reds += [(t, rf, None, sec) for t in range(n) for rf in (0, 1) for sec in ("toR", "toT")]
                 for red in reds:
                     for sch in schemes:
                         for hist in (HISTORIES if sch == schemes[0] else HISTORIES[:1]):
+                            if red is not None and len(red) > 3 and hist in ("flagged_first", "last_late", "marked_includer_first"):
+                                continue   # (two analyses advance the one-pass redirect layer by a second pass: single-analysis histories only)
                             report(i)
                             i += 1
                             case = {"n": n, "edges": edges, "flags": fl, "redirect": red, "naming": sch, "history": hist}
